@@ -13,6 +13,7 @@ VARIABLE h
 HasObs(t) == \E c \in Classes : t.obs[c] # <<>>
 PT(t) == [id |-> t.id, cnt |-> t.attrs.cnt, tag |-> t.attrs.tag, st |-> t.attrs.st,
           obs |-> [c \in Classes |-> t.obs[c]],
+          cls |-> AscSeq({c \in Classes : t.obs[c] # <<>>}),      \* the classes the track has
           calls |-> IF HasObs(t) THEN t.calls ELSE -1,      \* metric state is observable only through an observation
           hist |-> t.hist]
 PJ(st) == LET ids == AscSeq(Dom(st)) IN
